@@ -300,7 +300,7 @@ func TextTransform(text string, r *rand.Rand, n int) (string, string, []string) 
 				j--
 			}
 			for _, c := range lines[j:i] {
-				descs = append(descs, strings.TrimSpace(c[1:]))
+				descs = append(descs, strings.TrimSpace(strings.TrimPrefix(strings.TrimSpace(c), "#")))
 			}
 			break
 		}
